@@ -262,7 +262,9 @@ impl<'ast, 'arena> ProgramFacts<'ast, 'arena> {
         }
         self.locals.push(LocalInfo { name, owner, declaring_scope, decl_span, decl_stmt, kind });
         self.scope_locals[declaring_scope.0 as usize].push(id);
-        function.locals_len += 1;
+        // Nested function bodies are resolved inline, so their locals are numbered between an
+        // outer function's own locals: the range must span first..=last own id, not count them.
+        function.locals_len = id.0 - function.locals_start + 1;
         id
     }
 
@@ -424,7 +426,8 @@ impl<'ast, 'arena> ProgramFacts<'ast, 'arena> {
             .map(|idx| self.user_calls[idx].callee)
     }
 
-    /// Returns the local-id range owned by a function.
+    /// Returns the local-id range spanned by a function's locals: it contains every local the
+    /// function owns (parameters first) and may also contain locals of nested functions.
     #[must_use]
     pub fn local_range(&self, function: FunctionId) -> Range<u32> {
         let info = &self.functions[function.0 as usize];
